@@ -31,7 +31,7 @@ type gsBroadcaster struct {
 	pc chan tmconsensus.PrecommitSparseProof
 }
 
-func (b gsBroadcaster) OutgoingProposedHeaders() chan<- tmconsensus.ProposedHeader     { return b.ph }
+func (b gsBroadcaster) OutgoingProposedHeaders() chan<- tmconsensus.ProposedHeader       { return b.ph }
 func (b gsBroadcaster) OutgoingPrevoteProofs() chan<- tmconsensus.PrevoteSparseProof     { return b.pv }
 func (b gsBroadcaster) OutgoingPrecommitProofs() chan<- tmconsensus.PrecommitSparseProof { return b.pc }
 
@@ -157,8 +157,8 @@ func runGossip(s *vsimcore.Sim, p vsimcore.Params) vsimcore.RunInfo {
 	}
 	nUpdates := 3 + s.Choose("updates", 10)
 	equivocation := s.Pct("equivocators", 60)
-	handed := map[string]bool{} // every fact contained in a view handed over so far
-	sent := map[string]bool{}   // every fact offered to the broadcaster so far
+	handed := map[string]bool{}  // every fact contained in a view handed over so far
+	sent := map[string]bool{}    // every fact offered to the broadcaster so far
 	allowed := map[string]bool{} // facts that may be broadcast but are not owed
 	var sample []string
 	hashesOf := func(v *gsView) []string { return append([]string{""}, v.PHs...) }
